@@ -13,6 +13,7 @@ func genAll() {
 	genLockCalls()
 	genDerefs()
 	genListeners()
+	genEcho()
 	genBeaconNode()
 	genDKGRun()
 	genSync()
